@@ -10,6 +10,7 @@ mod graphml;
 mod cent;
 mod comp;
 mod cluster;
+mod comm;
 use std::io::{BufRead, Write};
 
 fn main() {
@@ -47,6 +48,7 @@ fn main() {
                     "cent" => cent::run_case(&cur, &mut o),
                     "comp" => comp::run_case(&cur, &mut o),
                     "cluster" => cluster::run_case(&cur, &mut o),
+                    "comm" => comm::run_case(&cur, &mut o),
                     _ => {
                         eprintln!("unknown mode {}", mode);
                         std::process::exit(2);
